@@ -63,4 +63,50 @@ def constants_statement : Prop :=
   Gen.formatSimpleSpecs = [89, 109, 100, 101, 85, 117, 87, 119, 72, 77, 83, 122, 90, 115, 37] ∧
   Gen.kExp10.length = 19 ∧ Gen.formatEDigits = (0, 0, 1024)
 
+/-! ### proofs (helper lemmas in `Cctz/Proofs/FormatLemmas.lean` and `Cctz/Proofs/Fm*.lean`) -/
+
+theorem constants : constants_statement := ⟨rfl, rfl, rfl, rfl, rfl⟩
+
+theorem format64 : format64_statement := Fm.format64_zero
+
+theorem format64_year4 : format64_year4_statement := Fm.format64_four
+
+theorem format02d : format02d_statement := Fm.format02d_spec
+
+theorem formatOffset : formatOffset_statement := by
+  intro off h1 h2
+  obtain ⟨a, b, c, d⟩ := Fm.formatOffset_val off h1 h2
+  exact ⟨a, b, c, d, Fm.formatOffset_ok off _ h1 h2, Fm.formatOffset_ok off _ h1 h2,
+    Fm.formatOffset_ok off _ h1 h2, Fm.formatOffset_ok off _ h1 h2⟩
+
+/-! the renderers on concrete values: -1:00:30 shows the sign rules of the four offset forms -/
+example : Cctz.Format.format64 0 (-42) = ofString "-42" ∧ Cctz.Format.format64 4 (-42) = ofString "-042"
+    ∧ Cctz.Format.format64 4 12345 = ofString "12345" := by decide +kernel
+example : (0 : Int) ≤ 7 ∧ (7 : Int) ≤ 99 ∧ (Cctz.Format.format02d 7).val = ofString "07" := by decide +kernel
+example : (-90000 : Int) < -30 ∧ (-30 : Int) < 90000 ∧
+    (Cctz.Format.formatOffset (-30) []).val = ofString "+0000" ∧
+    (Cctz.Format.formatOffset (-30) [58, 42]).val = ofString "-00:00:30" ∧
+    (Cctz.Format.formatOffset (-3600) [58, 42, 58]).val = ofString "-01" := by decide +kernel
+
+theorem literal : literal_statement :=
+  fun fmt al t fs h37 hne => Fm.literal_segs fmt al t fs h37 hne
+
+theorem percent : percent_statement :=
+  fun a b al t fs ha hb => Fm.percent_segs a b al t fs ha hb
+
+/-! hypotheses satisfiable: "a-b" has no percent sign; "50%%!" renders "50%!" -/
+example : (∀ c ∈ ofString "a-b", c ≠ 37) ∧ ofString "a-b" ≠ [] := by decide +kernel
+example : (∀ c ∈ ofString "50", c ≠ 37) ∧ (∀ c ∈ ofString "!", c ≠ 37) ∧
+    ofString "50" ++ [37, 37] ++ ofString "!" = ofString "50%%!" := by decide +kernel
+
+theorem rfc3339 : rfc3339_statement := by
+  intro al t fs hg h0 h1
+  obtain ⟨hv, hy, ho1, ho2⟩ := hg
+  exact Fm.rfc_segs al t fs hv hy ho1 ho2 h0 h1
+
+/-! hypotheses satisfiable: 2024-02-29 23:59:58 at UTC-03:30 with half a second -/
+example : GoodLookup ⟨⟨2024, 2, 29, 23, 59, 58⟩, -12600, false, ofString "NST"⟩ ∧
+    (0 : Int) ≤ 500000000000000 ∧ (500000000000000 : Int) < 1000000000000000 := by
+  unfold GoodLookup; decide +kernel
+
 end Cctz.C08
